@@ -6,7 +6,7 @@
 From Coq Require Import List ZArith.
 From LJT Require Import gen.GenPnm model.Pnm model.Bmp proofs.PnmProofs proofs.PnmRoundtrip proofs.PnmTop proofs.PnmExamples
   proofs.BmpProofs proofs.BmpRoundtrip proofs.BmpTop gen.GenImgPrec model.ImgEntry proofs.ImgEntryProofs
-  gen.GenImgRd model.RdCommon model.Gif model.Tga proofs.GifProofs proofs.TgaProofs proofs.ImgRdTop proofs.GifStale proofs.PnmRescale gen.GenCmyk model.Cmyk proofs.CmykProofs.
+  gen.GenImgRd model.RdCommon model.Gif model.Tga proofs.GifProofs proofs.TgaProofs proofs.ImgRdTop proofs.GifStale proofs.PnmRescale gen.GenCmyk model.Cmyk proofs.CmykProofs proofs.BmpCjRoundtrip proofs.BmpCjTarget.
 Import ListNotations.
 Local Open Scope Z_scope.
 
@@ -261,6 +261,33 @@ Print Assumptions C18_cmyk_roundtrip_margin.
 Theorem C18_source_cmyk_arithmetic : 34 <= cmyk_significand_bits /\ cmyk_round_half_up = true /\ cmyk_shapes_ok = true.
 Proof. exact cmyk_float_wide_enough. Qed.
 Print Assumptions C18_source_cmyk_arithmetic.
+
+(* (16) cjpeg's BMP reader (inversion array) on the output of the library's BMP writer: the image comes back,
+   8-bit gray (palettised) and 24-bit RGB, row padding, bottom-up file order, both buffer orders of the writer *)
+Theorem C18_bmp_cjpeg_reads_saved : forall cmyk uncmyk t bottomup w h rows, t = TGray \/ t = ext_rgb ->
+  1 <= w <= 250000000 -> 1 <= h <= 2147483647 -> length rows = Z.to_nat h -> Forall (Forall BmpProofs.byte) rows ->
+  load_bmp_cj cmyk 0 (save_bmp uncmyk t bottomup w h rows)
+  = BOk (w, h, t, map (canon_row 8 t (Z.to_nat w)) (if bottomup then rev rows else rows)).
+Proof. exact bmp_cj_reads_saved. Qed.
+Print Assumptions C18_bmp_cjpeg_reads_saved.
+Theorem C18_bmp_cjpeg_reads_saved_identity : forall cmyk uncmyk t w h rows, t = TGray \/ t = ext_rgb ->
+  1 <= w <= 250000000 -> 1 <= h <= 2147483647 -> length rows = Z.to_nat h ->
+  Forall (fun row => Forall BmpProofs.byte row /\ length row = (Z.to_nat w * Z.to_nat (target_ps t))%nat) rows ->
+  load_bmp_cj cmyk 0 (save_bmp uncmyk t false w h rows) = BOk (w, h, t, rows).
+Proof. exact bmp_cj_reads_saved_identity. Qed.
+Print Assumptions C18_bmp_cjpeg_reads_saved_identity.
+
+(* (12') the all-byte-strings statement for cjpeg's BMP reader without a hypothesis on the target: it is always
+   grayscale or RGB, so the samples are always within 0..255 *)
+Theorem C18_bmp_cjpeg_reader_safe_unconditional : forall cmyk maxpixels s, bytes s ->
+  match load_bmp_cj cmyk maxpixels s with
+  | BOk (w, h, t, rows) =>
+    (t = TGray \/ t = ext_rgb) /\ 1 <= w /\ 1 <= h /\ (maxpixels = 0 \/ w * h <= maxpixels) /\ length rows = Z.to_nat h /\
+    Forall (fun row => Forall (fun x => 0 <= x <= 255) row /\ length row = (Z.to_nat w * Z.to_nat (target_ps t))%nat) rows
+  | BErr e => e <> B_OOB
+  end.
+Proof. exact load_bmp_cj_safe. Qed.
+Print Assumptions C18_bmp_cjpeg_reader_safe_unconditional.
 
 (* ---- non-vacuity ---- *)
 Example C18_ex_text_ok : bytes f_text /\ load_pnm cmyk_exact look_tbl 2 0 None false f_text = Ok (2, 1, TGray, [[1; 2]]).
